@@ -1,4 +1,5 @@
 import NitroVerif.Lemmas.CheckOpCompleteHeader
+import NitroVerif.Lemmas.CheckOpCompleteInt
 /-!
 # C04 — `check` raises no diagnostic on spec-valid operation documents
 
@@ -231,6 +232,42 @@ theorem C04_values_complete (S : Schema) (hS : SchemaValid S) (vars : Option (Li
 example : (∃ td, c04Schema.typeDef? (GType.named "Filter" {}).unwrapped = some td ∧ Schema.isInputKind td.kind = true) ∧
     valueIssues c04Schema (.obj [("color", {}, .enum "RED" {}), ("ids", {}, .list [.int "1" {}, .str "z" {}] {})] {})
       (.named "Filter" {}) = [] := by decide
+
+/-- C04, numeric boundaries (fix e3584a3 made the `Int` arm of `is_value_compatible_type_def` stricter — it must not have
+    become stricter than the specification): against a valid schema `check_value` accepts an integer literal
+    * at every position whose innermost named type is `Int` when its text denotes an integer in `[-2^31, 2^31)`
+      (`-2147483648`, `2147483647`, `-0` included), and
+    * at every position whose innermost named type is `Float` or `ID`, whatever its size (§3.5.2, §3.5.5).
+    The position may be a list type at any depth (a single value is coerced to a list of one item). -/
+theorem C04_int_literal_complete (S : Schema) (hS : SchemaValid S) (vars : Option (List VarDef)) (s : String) (p : Pos)
+    (t : GType) (ld : Bool)
+    (h : (t.unwrapped = "Int" ∧ ∃ i : Int, SpecInt.intValue? s.toList = some i ∧ -2147483648 ≤ i ∧ i ≤ 2147483647) ∨
+         t.unwrapped = "Float" ∨ t.unwrapped = "ID") :
+    checkValue S vars (.int s p) t ld = [] := by
+  have hn : t.unwrapped ∈ ["Int", "Float", "String", "Boolean", "ID"] := by
+    rcases h with ⟨hn, _⟩ | hn | hn <;> simp [hn]
+  obtain ⟨td, ht, hk⟩ := builtin_scalar_defined hS hn
+  apply C04_values_complete S hS vars (.int s p) t ld ⟨td, ht, by simp [hk, Schema.isInputKind]⟩
+  · apply int_valueIssues_nil hS
+    rcases h with ⟨hn, hi⟩ | hn | hn
+    · exact Or.inl ⟨hn, by rw [← IntLit.intLiteralFitsI32_eq]; exact (IntLit.intLiteralFitsI32_iff s).mpr hi⟩
+    · exact Or.inr (Or.inl hn)
+    · exact Or.inr (Or.inr hn)
+  · intro u hu; simp [varUses] at hu
+
+/-- non-vacuity: `2147483647` / `-2147483648` / `-0` at `[Int!]`, a 20-digit integer at `Float` and `ID` (the hypotheses
+    hold); one step beyond the boundary the hypothesis fails and so does the check -/
+example : SchemaValid c04Schema ∧
+    (∀ s ∈ ["2147483647", "-2147483648", "-0"], ∃ i : Int, SpecInt.intValue? s.toList = some i ∧ -2147483648 ≤ i ∧ i ≤ 2147483647) ∧
+    (∀ s ∈ ["2147483648", "-2147483649"], SpecInt.intTextInRange s = false ∧
+      checkValue c04Schema none (.int s {}) (.list (.nonNull (.named "Int" {})) {}) false ≠ []) := by
+  refine ⟨by decide, ?_, by decide +kernel⟩
+  intro s hs
+  simp only [List.mem_cons, List.not_mem_nil, or_false] at hs
+  rcases hs with rfl | rfl | rfl
+  · exact ⟨2147483647, by decide +kernel, by decide, by decide⟩
+  · exact ⟨-2147483648, by decide +kernel, by decide, by decide⟩
+  · exact ⟨0, by decide +kernel, by decide, by decide⟩
 
 /-- C04, variable usages (5.8.5, with the default-value exceptions): a usage of a defined variable that the
     specification's `IsVariableUsageAllowed` allows is accepted by the variable case of `check_value_at`. -/
